@@ -1,5 +1,6 @@
 /-
-  The canonical form of a TL definition and its CRC-32 (kernel-friendly: `Nat` arithmetic only).
+  The canonical form of a TL definition and its CRC-32 (kernel-friendly: `Nat` arithmetic only,
+  accumulators forced at every step).
 -/
 import Mtv.Schema.Types
 namespace Mtv.Schema
@@ -9,57 +10,81 @@ def crcStep (c : Nat) : Nat := if c % 2 = 1 then (c / 2) ^^^ 0xEDB88320 else c /
 def crcByte (c b : Nat) : Nat :=
   crcStep (crcStep (crcStep (crcStep (crcStep (crcStep (crcStep (crcStep (c ^^^ b))))))))
 
-/-- CRC-32 (IEEE) of a list of byte values -/
-def crc32Nat (bs : List Nat) : Nat := (bs.foldl crcByte 0xFFFFFFFF) ^^^ 0xFFFFFFFF
+/-- fold over the bytes `i, i+1, …` of `s` (`n` bytes left); the `match` forces the accumulator -/
+def crcLoop (s : BStr) : Nat → Nat → Nat → Nat
+  | 0, _, c => c
+  | n + 1, i, c =>
+    match crcByte c (s.byteAt i) with
+    | 0 => crcLoop s n (i + 1) 0
+    | c' + 1 => crcLoop s n (i + 1) (c' + 1)
 
-def asciiBytes (s : String) : List Nat := s.toList.map Char.toNat
+/-- CRC-32 (IEEE) of a byte string -/
+def crc32B (s : BStr) : Nat := (crcLoop s s.len 0 0xFFFFFFFF) ^^^ 0xFFFFFFFF
 
-def decap (s : String) : String :=
-  match s.toList with
-  | [] => s
-  | c :: cs => String.ofList (c.toLower :: cs)
+def decapB (s : BStr) : BStr :=
+  if s.len = 0 then s else
+  let b := s.byteAt 0
+  if 65 ≤ b ∧ b ≤ 90 then ⟨s.len, s.val + 32 * 256 ^ (s.len - 1)⟩ else s
 
 /-- a type inside the canonical line: angle brackets become a space, `%T` its bare name -/
-def canonTy : STy → String
-  | .flagsWord => "#"
+def canonTy : STy → BStr
+  | .flagsWord => bHash
   | .prim n => n
-  | .vec true e => "Vector " ++ canonTy e
-  | .vec false e => "vector " ++ canonTy e
+  | .vec true e => bVectorSp ++ canonTy e
+  | .vec false e => bvectorSp ++ canonTy e
   | .ref n => n
-  | .bare n => decap n
-  | .bang n => "!" ++ n
+  | .bare n => decapB n
+  | .bang n => bBang ++ n
   | .typeParam k => k
 
 /-- a parameter of the canonical line: `flags.N?true` parameters are dropped, a top-level `bytes`
 is written `string`, `{X:Type}` loses its braces -/
-def canonParam (p : Param) : String :=
+def canonParam (p : Param) : BStr :=
   match p.ty with
-  | .typeParam k => " " ++ p.name ++ ":" ++ k
-  | .prim "true" =>
-    match p.cond with
-    | some _ => ""
-    | none => " " ++ p.name ++ ":true"
+  | .typeParam k => bSpace ++ p.name ++ bColon ++ k
   | t =>
-    let ts := if t == .prim "bytes" then "string" else canonTy t
+    if t == .prim bTrue && p.cond.isSome then BStr.empty else
+    let ts := if t == .prim bBytes then bString else canonTy t
     match p.cond with
-    | none => " " ++ p.name ++ ":" ++ ts
-    | some n => " " ++ p.name ++ ":flags." ++ toString n ++ "?" ++ ts
+    | none => bSpace ++ p.name ++ bColon ++ ts
+    | some n => bSpace ++ p.name ++ bColon ++ bFlagsDot ++ decB n ++ bQuestion ++ ts
 
-def canonResult (r : String) : String :=
-  String.ofList (r.toList.filterMap fun c => if c == '<' then some ' ' else if c == '>' then none else some c)
+/-- `<` ↦ space, `>` dropped (result types such as `Vector<long>`) -/
+def canonResultLoop (s : BStr) : Nat → Nat → BStr → BStr
+  | 0, _, acc => acc
+  | n + 1, i, acc =>
+    let b := s.byteAt i
+    let acc' := if b = 0x3c then acc ++ bSpace else if b = 0x3e then acc else acc ++ BStr.ofByte b
+    match acc'.val with
+    | 0 => canonResultLoop s n (i + 1) ⟨acc'.len, 0⟩
+    | v + 1 => canonResultLoop s n (i + 1) ⟨acc'.len, v + 1⟩
+
+def canonResult (r : BStr) : BStr := canonResultLoop r r.len 0 BStr.empty
 
 /-- the line whose CRC-32 is the constructor id -/
-def canon (d : Def) : String :=
-  d.name ++ String.join (d.params.map canonParam) ++ " = " ++ canonResult d.result
+def canon (d : Def) : BStr :=
+  d.name ++ joinB (d.params.map canonParam) ++ bEq ++ canonResult d.result
 
-def hexNat? (s : String) : Option Nat :=
-  s.toList.foldlM (fun acc c => (hexVal? c).map (acc * 16 + ·)) 0
+def hexDigitVal (b : Nat) : Option Nat :=
+  if 48 ≤ b ∧ b ≤ 57 then some (b - 48) else if 97 ≤ b ∧ b ≤ 102 then some (b - 87)
+  else if 65 ≤ b ∧ b ≤ 70 then some (b - 55) else none
+
+def hexLoop (s : BStr) : Nat → Nat → Nat → Option Nat
+  | 0, _, acc => some acc
+  | n + 1, i, acc =>
+    match hexDigitVal (s.byteAt i) with
+    | none => none
+    | some d => hexLoop s n (i + 1) (acc * 16 + d)
+
+def hexNatB? (s : BStr) : Option Nat := hexLoop s s.len 0 0
 
 /-- the translator's reading prints back to the source line; the id text is the id; the id is the
-CRC-32 of the canonical line -/
+CRC-32 of the canonical line; every literal is well-formed -/
 def defOk (d : Def) : Bool :=
-  render d == d.raw && hexNat? d.idText == some d.id && crc32Nat (asciiBytes (canon d)) == d.id
+  d.raw.wf && d.name.wf && d.result.wf && d.idText.wf &&
+  render d == d.raw && hexNatB? d.idText == some d.id && crc32B (canon d) == d.id
 
-example : crc32Nat (asciiBytes "123456789") = 0xCBF43926 := by decide +kernel
+-- "123456789"
+example : crc32B ⟨9, 0x313233343536373839⟩ = 0xCBF43926 := by decide +kernel
 
 end Mtv.Schema
